@@ -58,6 +58,22 @@ var (
 	ErrEmptyKey          = errors.New("entry key cannot be empty")
 	ErrFileClosed        = errors.New("file is closed")
 	ErrCompactionRunning = errors.New("compaction is already running")
+	ErrKeyTooLong        = errors.New("entry key is longer than the 16-bit key length field allows")
+	ErrDataTooLarge      = errors.New("entry data is larger than the 32-bit data length field allows")
+	ErrNameTooLong       = errors.New("swamp name is longer than the 16-bit name length field allows")
+)
+
+// Width limits of the on-disk format: lengths are stored in fixed-width fields, so a value
+// that does not fit must be rejected instead of being silently truncated by the conversion.
+const (
+	// MaxKeyLength is the longest key an entry can encode (16-bit key length).
+	MaxKeyLength = 1<<16 - 1
+	// MaxDataLength is the largest payload an entry can encode (32-bit data length).
+	MaxDataLength = 1<<32 - 1
+	// MaxEntriesPerBlock is the largest entry count a block header can encode (16-bit count).
+	MaxEntriesPerBlock = 1<<16 - 1
+	// MaxNameLength is the longest swamp name the V3 header can describe (16-bit name length).
+	MaxNameLength = 1<<16 - 1
 )
 
 // FileHeader represents the header at the beginning of each .hyd file.
@@ -289,6 +305,18 @@ func (e *Entry) Deserialize(buf []byte) (int, error) {
 	offset += dataLen
 
 	return offset, nil
+}
+
+// Validate reports whether the entry can be encoded faithfully: the key and the data have
+// to fit the fixed-width length fields of the format.
+func (e *Entry) Validate() error {
+	if len(e.Key) > MaxKeyLength {
+		return ErrKeyTooLong
+	}
+	if len(e.Data) > MaxDataLength {
+		return ErrDataTooLarge
+	}
+	return nil
 }
 
 // Size returns the serialized size of the entry
